@@ -362,6 +362,48 @@ pub fn tls_cell(st: &State, t: &mut Toks) -> PResult<String> {
     out
 }
 
+/// TLSSNI <verify>: a TLS endpoint that picks its certificate by the name the client asks for (SNI) - `openssl s_server` with a
+/// default certificate for another name and the trusted, matching one for "localhost" - as name-based virtual hosts and load
+/// balancers do.  A client told to connect to "localhost" gets the session its settings allow.  Observed: the result of connect().
+pub fn tls_sni(_st: &State, t: &mut Toks) -> PResult<String> {
+    let verify = t.boolean()?;
+    let dir = tls_dir();
+    let port = {
+        let l = std::net::TcpListener::bind("127.0.0.1:0").map_err(|e| e.to_string())?;
+        l.local_addr().map_err(|e| e.to_string())?.port()
+    };
+    let child = std::process::Command::new("openssl")
+        .args(["s_server", "-accept", &format!("127.0.0.1:{}", port), "-quiet",
+               "-cert", &format!("{}/wrongname.crt", dir), "-key", &format!("{}/wrongname.key", dir),
+               "-servername", "localhost", "-cert2", &format!("{}/match.crt", dir), "-key2", &format!("{}/match.key", dir)])
+        .stdin(std::process::Stdio::piped()).stdout(std::process::Stdio::null()).stderr(std::process::Stdio::null())
+        .spawn();
+    let mut child = match child { Ok(c) => c, Err(e) => return Ok(format!("TLSSNI skipped {}", e.to_string().replace(' ', "_"))) };
+    let mut up = false;
+    for _ in 0..100 {
+        if std::net::TcpStream::connect(("127.0.0.1", port)).is_ok() { up = true; break; }
+        std::thread::sleep(Duration::from_millis(30));
+    }
+    if !up {
+        let _ = child.kill();
+        let _ = child.wait();
+        return Ok("TLSSNI skipped endpoint_did_not_come_up".into());
+    }
+    let rt = rt();
+    let out = rt.block_on(async move {
+        let mut client = DiameterClient::new(&format!("localhost:{}", port), DiameterClientConfig { use_tls: true, verify_cert: verify });
+        match tokio::time::timeout(Duration::from_millis(3000), client.connect()).await {
+            Ok(Ok(_h)) => "TLSSNI connect=ok".to_string(),
+            Ok(Err(_)) => "TLSSNI connect=refused".to_string(),
+            Err(_) => "TLSSNI connect=timeout".to_string(),
+        }
+    });
+    rt.shutdown_timeout(Duration::from_millis(200));
+    let _ = child.kill();
+    let _ = child.wait();
+    Ok(out)
+}
+
 /// TLSPLAIN <cert> <frame>: a server configured with a TLS identity; a peer that speaks plain text sends this frame as the
 /// first thing on a fresh TCP connection.  Observed: was any request handed to the handler, and what came back.
 pub fn tls_plain(st: &State, t: &mut Toks) -> PResult<String> {
